@@ -272,6 +272,61 @@ func CheckC06(w *World, s *Snapshot) []V {
 		}
 		w.Mgr.Status()
 	}
+	// searches that FILTER on a tag (and on its negation): the result must be exactly the visible streams for
+	// which the definition holds (does not hold) on their current data - decided streams through the stored
+	// bit, pending ones through the definition the search inlines
+	for _, t := range s.St.Tags {
+		m, ok := truth[t.Name]
+		if !ok {
+			continue
+		}
+		kind, short, found := strings.Cut(t.Name, "/")
+		if !found {
+			continue
+		}
+		for _, neg := range []bool{false, true} {
+			text := kind + ":" + short
+			if neg {
+				text = "-" + text
+			}
+			q := parseDef(text + " sort:id")
+			if q == nil {
+				continue
+			}
+			v := w.Mgr.GetView()
+			var got []uint64
+			_, _, _, err := v.SearchStreams(context.Background(), q, func(sc manager.StreamContext) error {
+				got = append(got, sc.Stream().ID())
+				return nil
+			}, manager.Limit(1000, 0))
+			v.Release()
+			if err != nil {
+				continue // a refusal is not a stale answer
+			}
+			var want []uint64
+			for id := range s.Visible {
+				if m[id] != neg {
+					want = append(want, id)
+				}
+			}
+			sort.Slice(want, func(i, j int) bool { return want[i] < want[j] })
+			sort.Slice(got, func(i, j int) bool { return got[i] < got[j] })
+			if fmt.Sprint(got) != fmt.Sprint(want) {
+				window := false
+				for id := range s.Visible {
+					if conversionWindow(s, t.Definition, id) {
+						window = true
+					}
+				}
+				sym := "c06.search-by-tag-wrong"
+				if window {
+					sym = "c06.search-by-tag-wrong-until-conversion-job-completes"
+				}
+				out = append(out, V{"C06", sym, fmt.Sprintf("a search for %q returns streams %v, evaluating the definition of %s (%s) on the current data of the visible streams gives %v", text, got, t.Name, t.Definition, want)})
+			}
+		}
+	}
+	w.Mgr.Status()
 	for id := range s.Visible {
 		var want []string
 		skip := false
